@@ -15,7 +15,7 @@ RULE = (
     "(i) every .iwa member of every file under tests/data that the independent codec (vf/iwa.py: own snappy inflater, own "
     "varint/wire parser) accepts as well-formed, and of the bundled template (~5200 files, 118 multi-chunk); (ii) archives "
     "of documents generated through the editing API; (iii) synthetic archives built independently from real message bodies "
-    "with unknown fields appended, 1..40 segments, multi-message segments, merge segments (one in five: 1..3 full messages followed by 1..3 patches, each a partial message - a subset of the fields - of the class of the message its base_message_index names, index 0 explicit or omitted), stream sizes drawn around 0, 1, 65535, 65536, "
+    "with unknown fields appended, ArchiveInfo headers of every size 20..299 and 16370..16399 bytes (padded with object references; the header's length prefix is a varint), 1..40 segments, multi-message segments, merge segments (one in five: 1..3 full messages followed by 1..3 patches, each a partial message - a subset of the fields - of the class of the message its base_message_index names, index 0 explicit or omitted), stream sizes drawn around 0, 1, 65535, 65536, "
     "65537, 131071..131073, 200k; (iv) for each stream, re-chunkings at Hypothesis-chosen cut points (1 byte .. 64 KiB "
     "pieces), each chunk compressed (literal-only or real snappy) or stored. Oracle: with S the independently inflated "
     "stream, stream(IWAFile.from_buffer(b).to_buffer()) == S byte for byte; segments parsed independently from the output "
@@ -387,6 +387,46 @@ def assemble(spec, pool):
     return S
 
 
+def header_size_stream(pool, size, messages=1):
+    """A three-segment stream whose middle segment has an ArchiveInfo of exactly `size` bytes (object references pad it), or None
+    when no padding hits the size (the length prefix of the packed list changes width at 128 and 16384 entries)."""
+    mtype, body = pool[size % len(pool)]
+    msgs = [(mtype, body)] * messages
+    lo = len(iwa.build_segment(20_000 + size, msgs)) - sum(len(b) for _, b in msgs)
+    for k in range(max(0, size - lo - 8), size):
+        refs = bytes((7 * j + size) % 127 + 1 for j in range(k))
+        extra = b"\x2a" + iwa.write_varint(len(refs)) + refs if k else b""
+        seg = iwa.build_segment(20_000 + size, msgs[:1], extra_info_fields=extra)
+        if messages > 1:
+            # only the first message carries the references
+            hdr = bytearray(b"\x08" + iwa.write_varint(20_000 + size))
+            for n_, (t_, b_) in enumerate(msgs):
+                mi = b"\x08" + iwa.write_varint(t_) + b"\x12\x03\x01\x00\x05" + b"\x18" + iwa.write_varint(len(b_)) + (extra if n_ == 0 else b"")
+                hdr += b"\x12" + iwa.write_varint(len(mi)) + mi
+            seg = iwa.write_varint(len(hdr)) + bytes(hdr) + b"".join(b for _, b in msgs)
+        hlen, p2 = iwa.read_varint(seg, 0)
+        if hlen == size:
+            a, b = pool[0], pool[1 % len(pool)]
+            return iwa.build_segment(19_000, [a]) + seg + iwa.build_segment(21_000_000, [b])
+        if hlen > size:
+            return None
+    return None
+
+
+HEADER_SIZES = sorted(set(range(20, 300)) | set(range(16370, 16400)) | {511, 512, 1023, 1024, 2047, 2048, 4095, 4096, 8191, 8192, 16500, 20000})
+
+
+def check_header_size(ctx, IWAFile, pool, size, messages):
+    S = header_size_stream(pool, size, messages)
+    if S is None:
+        ctx.count("header_size_not_constructible")
+        return
+    case = {"lane": "header_size", "size": size, "messages": messages}
+    check_roundtrip(ctx, IWAFile, case, iwa.build_file(S), S, f"header of {size} bytes")
+    ctx.count("header_sizes")
+    ctx.nt_enum(1)
+
+
 def tasks(tier, seed):
     t = []
     files = sorted(glob.glob("/repo/tests/data/*.numbers"))
@@ -397,6 +437,7 @@ def tasks(tier, seed):
     t.append(("template", {"nrechunk": 4, "seed": derive_seed(seed, "c05t")}))
     for k in range(4 if tier == "quick" else 16):
         t.append(("generated", {"n": 3 if tier == "quick" else 20, "nrechunk": 2, "seed": derive_seed(seed, "c05g", k)}))
+    t.append(("header_sizes", {}))
     for k in range(8 if tier == "quick" else 16):
         t.append(("synthetic", {"n": 80 if tier == "quick" else 380, "nrechunk": 4 if tier == "quick" else 8, "seed": derive_seed(seed, "c05s", k)}))
     return t
@@ -442,6 +483,13 @@ def run_task(ctx, lane, **kw):
                 shutil.rmtree(tmp, ignore_errors=True)
 
         run_given(ctx, docgen.recipes(max_ops=20), body, kw["n"], kw["seed"], phases=(Phase.explicit, Phase.generate))
+    elif lane == "header_sizes":
+        # every ArchiveInfo size from 20 to 299 bytes and around 16384 (the segment's length prefix is a varint: 127/128, 16383/16384)
+        pool = message_pool()
+        for size in HEADER_SIZES:
+            for messages in (1, 2):
+                check_header_size(ctx, IWAFile, pool, size, messages)
+        ctx.sample({"lane": "header_sizes", "sizes": [HEADER_SIZES[0], HEADER_SIZES[-1]], "count": len(HEADER_SIZES)})
     elif lane == "synthetic":
         pool = message_pool()
 
@@ -481,6 +529,8 @@ def check_case(ctx, case):
         else:
             data = iwa.build_file(S)
         check_roundtrip(ctx, IWAFile, case, data, S, "synthetic")
+    elif case["lane"] == "header_size":
+        check_header_size(ctx, IWAFile, message_pool(), case["size"], case["messages"])
     elif case["lane"] == "edited":
         fname, member = case["label"].split(":", 1)
         data = dict(pkg.iwa_members(f"/repo/tests/data/{fname}"))[member]
